@@ -210,6 +210,7 @@ type vfIntent struct {
 	Inject    *vfInject
 	Token     *vfTokenReq
 	Present   *vfPresent
+	Adm       *vfAdmReq
 }
 
 type vfCertReq struct {
